@@ -15,6 +15,7 @@ mod pae;
 mod rules;
 mod cjson;
 mod signed;
+mod importers;
 
 pub fn err_name(e: &in_toto::Error) -> String {
     let d = format!("{:?}", e);
@@ -66,6 +67,7 @@ fn main() {
             "rules" => rules::run(sc),
             "cjson" => cjson::run(sc),
             "signed_bytes" => signed::run(sc),
+            "importers" => importers::run(sc),
             _ => json!({"outcome": "unsupported-kind"}),
         });
         out.push(r);
